@@ -31,12 +31,12 @@ type Prog struct {
 type Gen func(yield func(p *Prog))
 
 type progRunner struct {
-	r        *harness.Run
-	prop     string
-	setupM   func(in *luaref.Interp)
-	extraI   func(m *glrun.Impl)
-	opts     lua.Options
-	perProg  func(w *progWorker, p *Prog, src string, mo glrun.MOutcome, o glrun.Outcome) // extra oracle, optional
+	r       *harness.Run
+	prop    string
+	setupM  func(in *luaref.Interp)
+	extraI  func(m *glrun.Impl)
+	opts    lua.Options
+	perProg func(w *progWorker, p *Prog, src string, mo glrun.MOutcome, o glrun.Outcome) // extra oracle, optional
 }
 
 type progWorker struct {
@@ -97,7 +97,9 @@ func (pr *progRunner) one(w *progWorker, p *Prog) {
 	o := w.impl.Run(src, budget)
 	class, diff := glrun.Compare(mo, o)
 	nontrivial := !p.Trivial && (len(mo.Events) > 0 || len(mo.Results) > 0 || mo.Failed)
-	r.Eval(src, nontrivial, func() interface{} { return map[string]interface{}{"family": p.Family, "shape": p.Shape, "program": src} })
+	r.Eval(src, nontrivial, func() interface{} {
+		return map[string]interface{}{"family": p.Family, "shape": p.Shape, "program": src}
+	})
 	r.Count("programs/"+p.Family, 1)
 	if class != "" {
 		// confirm on a fresh state, twice
